@@ -18,7 +18,7 @@ RULE = ("class shapes = base class + registered subclass with members of every k
         "non-trivial = the name is a member of the shape or a variant of one")
 ASSUMPTIONS = ["classes with their own __getattr__/metaclass tricks are outside the quantifier", "'refused' = an exception reply of any type (no reply for oneway)",
                "a call-kind request naming an *exposed* property may run that property's getter before being refused"]
-REQUIRED_REACH = ["surplus_argument_requests", "served_ok", "refused_ok", "oneway_checked", "metadata_checked", "nonstring_names", "decoration_refusals", "reregistrations_on_live_connection"]
+REQUIRED_REACH = ["dynamic_exposure_stages_ok", "surplus_argument_requests", "served_ok", "refused_ok", "oneway_checked", "metadata_checked", "nonstring_names", "decoration_refusals", "reregistrations_on_live_connection"]
 SHARD_TIMEOUT = {"quick": 240, "thorough": 2800}
 
 RESERVED = ["__init__", "__init_subclass__", "__class__", "__module__", "__weakref__", "__call__", "__new__", "__del__", "__repr__", "__str__",
@@ -523,6 +523,88 @@ def run_shape(fx, shape, sername, rec, r, light=False):
     rec.count("reconnects", sess.reconnects)
 
 
+def dynamic_exposure_phase(fx, sername, rec, r):
+    """the advertised member list is exactly the served set ALSO after the application has changed the exposure of members at run time and
+    called the documented Daemon.resetMetadataCache(object or id): for objects registered strongly or weakly, named by object or by id; every
+    channel that advertises (connect handshake, Pyro.Daemon.get_metadata, the proxy from proxyFor) is compared with what raw calls reach"""
+    P = fx.P
+    ser = P.serializers.serializers[sername]
+    for weak in (False, True):
+        for by in ("object", "id"):
+            LOGD = []
+
+            class Dyn(object):
+                @P.server.expose
+                def first(self, *a, **k):
+                    LOGD.append("first")
+                    return "first"
+
+                def second(self, *a, **k):
+                    LOGD.append("second")
+                    return "second"
+
+                def third(self, *a, **k):
+                    LOGD.append("third")
+                    return "third"
+
+                @property
+                def prop(self):
+                    LOGD.append("prop")
+                    return 5
+            obj = Dyn()
+            oid = "dyn-%s-%s-%s" % (sername, weak, by)
+            fx.daemon.register(obj, oid, weak=weak)
+            pay = {"dynamic": True, "serializer": sername, "servertype": fx.servertype, "weak": weak, "by": by}
+            try:
+                for stage in ("initial", "second-exposed", "third-and-prop-exposed"):
+                    if stage == "second-exposed":
+                        P.server.expose(Dyn.second)
+                    elif stage == "third-and-prop-exposed":
+                        P.server.expose(Dyn.third)
+                        P.server.expose(Dyn.prop)          # a property object: marks its accessors
+                    if stage != "initial":
+                        fx.daemon.resetMetadataCache(obj if by == "object" else oid)
+                    # what a NEW peer is told ...
+                    c = wire.RawClient(fx.location)
+                    m = c.handshake(oid, ser)
+                    if m.type != wire.CONNECTOK:
+                        rec.inconc("dynamic exposure: handshake refused")
+                        c.close()
+                        break
+                    told = {"handshake": ser.loads(m.data)["meta"]}
+                    told["get_metadata"] = ser.loads(c.invoke("Pyro.Daemon", "get_metadata", (oid,), {}, ser).data)
+                    px = fx.daemon.proxyFor(obj if by == "object" else oid)
+                    told["proxyFor"] = {"methods": set(px._pyroMethods), "attrs": set(px._pyroAttrs), "oneway": set(px._pyroOneway)}
+                    # ... and what it is served
+                    served_m, served_a = set(), set()
+                    for name in ("first", "second", "third"):
+                        del LOGD[:]
+                        rep = c.invoke(oid, name, (), {}, ser)
+                        if not (rep.flags & wire.F_EXC) and LOGD == [name]:
+                            served_m.add(name)
+                        elif LOGD:
+                            rec.violation("unexposed-member-effect:dynamic", "stage %s: %r ran although refused" % (stage, name), pay)
+                    del LOGD[:]
+                    rep = c.invoke(oid, "__getattr__", ("prop",), {}, ser)
+                    if not (rep.flags & wire.F_EXC):
+                        served_a.add("prop")
+                    c.close()
+                    rec.case(("dynamic", sername, fx.servertype, weak, by, stage), nontrivial=True)
+                    for channel, meta in told.items():
+                        adv_m, adv_a = set(meta.get("methods", ())), set(meta.get("attrs", ()))
+                        if adv_m != served_m or adv_a != served_a:
+                            rec.violation("metadata-differs-from-served:after-reset" if stage != "initial" else "metadata-differs-from-served",
+                                          "%s registration, resetMetadataCache(%s), stage %s: the %s advertises methods %r attrs %r, raw calls are served for methods %r attrs %r" % (
+                                              "weak" if weak else "strong", by, stage, channel, sorted(adv_m), sorted(adv_a), sorted(served_m), sorted(served_a)), dict(pay, stage=stage))
+                            break
+                    else:
+                        rec.count("dynamic_exposure_stages_ok")
+                        continue
+                    break
+            finally:
+                fx.daemon.unregister(oid)
+
+
 def classify_effect(model, name, kind, log):
     m = model.eff.get(name) if isinstance(name, str) else None
     if m is not None and m["kind"] == "helper" and log == [(name + ".__call__", ("A1",))]:
@@ -584,6 +666,8 @@ def run_shard(shard, rec):
                 if rec.should_stop(40):
                     break
                 run_shape(fx, shape, sername, rec, r, light=False)
+        if not rec.should_stop(40):
+            dynamic_exposure_phase(fx, fixture.SERIALIZERS[shard["i"] % 4], rec, r)
         for kind, text in fixture.take_faults():
             if kind == "thread-exception":
                 if "oneway-call" in text and "object is not callable" in text and "Helper" in text:
@@ -597,6 +681,13 @@ def run_shard(shard, rec):
 
 def replay(payload, rec):
     P = fixture.pyro()
+    if payload.get("dynamic"):
+        fx = fixture.Fixture(servertype=payload.get("servertype", "thread"), COMMTIMEOUT=0.0)
+        try:
+            dynamic_exposure_phase(fx, payload["serializer"], rec, gen.rng(0, "replay"))
+        finally:
+            fx.stop()
+        return
     if "shape" not in payload:
         check_decoration(P, rec)
         return
